@@ -4,7 +4,7 @@ shared step."""
 import time, json
 from . import sym as S
 from . import smt
-from .values import UNDEF, EnumV, VecV, veq, merge, Unsupported
+from .values import UNDEF, EnumV, RefV, VecV, veq, merge, Unsupported
 from .scenario import OrderView, sym_order, const_order_id, Inputs
 from .histcheck import build, base_assumptions, target_id, conc, _uf_eval, state_recipe, ABSENT_ID
 from .history import order_json, order_id_str, uuid_str, canon, SIDE, TAKER_ID
@@ -59,6 +59,9 @@ def make_thread(c, name, op, slot):
 def total70(L, o):
     v = OrderView(L, o)
     return S.Add(S.ZExt(v.displayed, W), S.ZExt(v.hidden, W))
+
+
+AFTER = (1 << SWW) - 1
 
 
 class Prog(object):
@@ -269,6 +272,37 @@ def ob_ack(P):
         if t.op in 'CPBX':
             out.append({'name': 'thread %s (%s): a successful removal means the order is out of the book' % (t.name, t.op),
                         'goal': S.And(P.live, some, is_removal(P, t), still)})
+        # sequential placements (the other thread ran completely before this call began): "nothing removes it" is then
+        # decided from what the other thread REPORTS - the order is not in its filled list and it did not take it out by
+        # an acknowledged cancel / move - so an order that merely vanished (neither traded nor cancelled) is caught here
+        sw = (P.c.cube.get('sw') or [None])[0]
+        if len(P.threads) == 2 and sw is not None:
+            u = P.threads[1] if t is P.threads[0] else P.threads[0]
+            before = (t is P.threads[1] and sw == AFTER) or (t is P.threads[0] and sw == 0)
+            if before:
+                if u.op == 'M':
+                    _, mr = match_txs(L, u)
+                    fl = mr['filled_order_ids']
+                    removed = S.Or([S.And(S.Ult(S.bv(i, 64), fl.length), veq(x, tid)) for i, x in enumerate(fl.cells)])
+                    # an order that offers nothing and cannot replenish leaves the book silently when the matcher visits it
+                    # (no trade, not in the filled list): decided by the real match_against on the order's initial value
+                    from .exec import State
+                    for occ, key, o in pre:
+                        st0 = State()
+                        root = c.ex.alloc(st0, o, 'order')
+                        ret, st1, lv = c.ex.call('OrderType::<()>::match_against', [RefV(root, ()), S.bv(1, 64)], st0)
+                        if st1 is None:
+                            continue
+                        leaves = S.And(lv, S.Eq(ret[0], S.bv(0, 64)), S.Eq(ret[1].tag, S.bv(0, 64)))
+                        removed = S.Or(removed, S.And(occ, veq(key, tid), leaves))
+                elif u.op in 'CPBX':
+                    usome, _, _ = upd_result(u)
+                    removed = S.And(usome, is_removal(P, u), veq(u.params['id'], tid))
+                else:
+                    removed = S.FALSE
+                out.append({'name': 'thread %s (%s): not-found although the order rested at the start and the other thread, which '
+                                    'ran to completion before this call, neither filled nor removed it' % (t.name, t.op),
+                            'goal': S.And(P.live, none_, was, S.Not(removed))})
     return out
 
 
@@ -450,7 +484,6 @@ def predicted(P, model):
     return out
 
 
-AFTER = (1 << SWW) - 1
 
 
 def placements(cube):
@@ -483,6 +516,23 @@ def solve_program(cube, obl_fn, monitor=False, timeout=300):
     goals = [o['goal'] for o in obls]
     res = smt.run_batch(assumptions, goals, timeout=timeout, label='+'.join(cube['threads']),
                         model_vars=c.inp.vars + c.models.clock_vars)
+    # unexpected sat answers (candidate violations): ask for a model whose pre-state has no order with two available
+    # tickets, because such a state is rebuilt on the real crate with add / cancel only (no amendment in the setup).
+    # The verdict is that of the plain goal; only the model that is replayed changes.
+    cand = [i for i, (o, (v, _)) in enumerate(zip(obls, res))
+            if v == 'sat' and o.get('kind', 'obligation') == 'obligation' and not o.get('known')]
+    if cand and c.pre:
+        nodup = []
+        tk = c.pre['tickets']
+        for a_ in range(len(tk)):
+            for b_ in range(a_):
+                nodup.append(S.Not(S.And(tk[a_][0], tk[b_][0], S.Eq(tk[a_][2], tk[b_][2]))))
+        res = list(res)
+        res2 = smt.run_batch(assumptions, [S.And(obls[i]['goal'], S.And(nodup)) for i in cand], timeout=timeout,
+                             label='+'.join(cube['threads']) + '/prefer', model_vars=c.inp.vars + c.models.clock_vars)
+        for i, (v, m) in zip(cand, res2):
+            if v == 'sat':
+                res[i] = (v, m)
     out = []
     for o, (verdict, model) in zip(obls, res):
         r = {'name': o['name'], 'kind': o.get('kind', 'obligation'), 'verdict': verdict,
